@@ -745,7 +745,15 @@ def clip(a, a_min=None, a_max=None, out=None, out_like=None, sizing='optimal', m
         a_max = kwargs.pop('max')
     kwargs['a_min'] = a_min
     kwargs['a_max'] = a_max
-    return _function_over_one_var(repr_func=np.clip, raw_func=_clip_raw, x=a, out=out, out_like=out_like, sizing=sizing, method=method, **kwargs)
+
+    def _clip_repr(val, **kwargs):
+        # (a fixed-point bound is its value: handed to numpy as it is, it would come back here with the values as operand and be cut to their size)
+        for k in ('a_min', 'a_max'):
+            if isinstance(kwargs.get(k), Fxp):
+                kwargs[k] = kwargs[k].get_val()
+        return np.clip(val, **kwargs)
+
+    return _function_over_one_var(repr_func=_clip_repr, raw_func=_clip_raw, x=a, out=out, out_like=out_like, sizing=sizing, method=method, **kwargs)
 
 @implements(np.diagonal)
 def diagonal(a, offset=0, axis1=0, axis2=1, out=None, out_like=None, sizing='optimal', method='raw', **kwargs):
